@@ -13,7 +13,7 @@ PROPERTY = {
     'technique': 'CrossHair symbolic execution of the real ConfigList/ConfigDict mutators as an inductive step: start state = any container of bounded size (it satisfies the representation invariant), ONE operation with a symbolic index (in range, out of range, negative) and a nested value, then invariant + differential check against the builtin list/dict semantics; z3 decides the index arithmetic on every path',
     'assumptions': [
         'the representation invariant (same entries, same order, same identity in the child map and in the builtin storage; every entry a node; list children named 0..n-1; get_node(path) is node for every walked node) characterises reachable states of a given size, so one step from every such state covers operation histories of any length whose sizes stay within the bound; 2-step sequences are run as a cross-check',
-        'element values are distinct concrete markers plus one nested list and one nested mapping; duplicates (equal neighbours) are included as a separate start-state variant',
+        'element values are distinct concrete markers plus one nested list and one nested mapping; duplicates are included as separate start-state variants: equal neighbours held by distinct node objects, and ONE node object held at several positions (repeated raw values through the constructor, extend(self))',
     ],
     'bounds': {'list length': '0..3 (quick) / 0..5 (thorough); 2-step sequences 0..2 / 0..4', 'index': '-7..7 symbolic (single step); -3..3 concretised by selectors for 2-step sequences', 'dict keys': "{'a','b','_u',1,'items-like names excluded'}", 'ops': 'setitem delitem insert append extend remove pop clear set_child remove_child rename_child update setdefault attribute set/del',
                'path text': 'components: ints from {-12,-1,0,1,7,12}, 7 names over {a, Z, _, 0} of length <= 2, <= 3 components'},
@@ -33,6 +33,9 @@ def _elems(n, variant):
     if variant == 1 and n >= 2:
         # equal neighbours as DISTINCT node objects (a plain [10, 10] would be one shared node through the ids memo)
         base = [ConfigNode(v) for v in [10, 10, 12, 12, 10, 10][:n]]
+    if variant == 3:
+        # ONE node object at several positions (what the ids memo makes of repeated raw values)
+        base = [10, 10, 12, 10, 12, 10][:n]
     if variant == 2:
         base = [[1, 2], {'k': 3}, 12, [[4]], {'m': {'n': 5}}, 15][:n]
     return base
@@ -388,8 +391,8 @@ def _splits_list(tier):
     out = []
     maxn = 3 if tier == 'quick' else 5
     for op in LIST_OPS:
-        for variant in (0, 1, 2):
-            if tier == 'quick' and variant == 2 and op in ('getitem', 'clear', 'pop_default', 'append', 'extend'):
+        for variant in (0, 1, 2, 3):
+            if tier == 'quick' and variant in (2, 3) and op in ('getitem', 'clear', 'pop_default', 'append', 'extend'):
                 continue
             out.append({'op': op, 'variant': variant, 'maxn': maxn})
     seqs = [('append', 'insert'), ('insert', 'delitem'), ('delitem', 'insert'), ('insert', 'insert'), ('pop', 'insert'), ('remove', 'setitem'), ('set_child', 'delitem')]
@@ -397,6 +400,9 @@ def _splits_list(tier):
         seqs += [(a, b) for a in ('insert', 'delitem', 'setitem', 'pop', 'remove_child') for b in ('insert', 'delitem', 'pop', 'set_child')]
     for a, b in seqs:
         out.append({'op': a, 'second': b, 'variant': 0, 'maxn': 2 if tier == 'quick' else 4})
+    # histories that create the shared-node state through the API itself: extend(self), then one more operation
+    for b in ('delitem', 'pop', 'remove_child', 'insert', 'setitem') + (() if tier == 'quick' else ('remove', 'set_child', 'append')):
+        out.append({'op': 'extend_self', 'second': b, 'variant': 0, 'maxn': 2 if tier == 'quick' else 3})
     return out
 
 
